@@ -219,6 +219,10 @@ func RandomHistory(e *Env, r *rand.Rand, p Profile) {
 						e.Apply(Step{Do: "svcmode", Name: n, Mode: "fail"})
 					}
 				}
+				// the successor's configuration may declare a different set: "declared" is recomputed, never persisted
+				if r.Intn(3) == 0 {
+					decl = p.Declared[r.Intn(len(p.Declared))]
+				}
 				e.Apply(Step{Do: "restart", Declared: decl, AllowLookup: first.AllowLookup, Expiry: first.Expiry, Auto: p.Auto})
 				if dead && e.theStore() != nil {
 					// it serves exactly what the cache held
